@@ -287,7 +287,7 @@ pub fn conn_domain_ok(sc: &ConnScenario) -> bool {
 
 /// Net-sim scenarios outside every check's domain (the shrinker may propose them).
 pub fn net_domain_ok(sc: &crate::net::NetScenario) -> bool {
-    sc.cfg.limiter.is_none_or(|(d, l)| d >= 1_000_000 && l >= 1)
+    sc.cfg.limiter.is_none_or(|(d, _)| d >= 1_000_000)
         && (sc.cfg.timeout_ns >= 1_000_000_000 || sc.cfg.timeout_ns == 0)
         && sc.clients.iter().all(|c| c.peer.parse::<SocketAddr>().is_ok())
         && {
